@@ -159,10 +159,24 @@ def run_layout_case(ctx, conv, R, rng, size, fields, used, values=None, tag="lay
             want = bytes(ref[f[1] : f[1] + f[2] * f[3]])
             if bytes(out1.get(name, b"?")) != want:
                 ctx.fail("C10:decode.blob_%s" % f[0], "decode_bits blob %s wrong" % name, wit)
-    if {k: (bytes(v) if isinstance(v, (bytes, bytearray)) else v) for k, v in out1.items()} != {
-        k: (bytes(v) if isinstance(v, (bytes, bytearray)) else v) for k, v in out2.items()
-    }:
+    def plain(d):
+        return {k: (bytes(v) if isinstance(v, (bytes, bytearray)) else v) for k, v in d.items()}
+
+    if plain(out1) != plain(out2):
         ctx.fail("C10:decode.order_dependent", "decode result depends on field order", wit)
+    # the result dictionary is the caller's: decoding into one that already holds values (of an earlier decode with the same
+    # names, or unrelated entries) must store what *this* buffer holds and leave unrelated entries alone
+    other = bytearray(rng.getrandbits(8) for _ in range(len(ref)))
+    out3 = {"_unrelated": 1234}
+    conv.decode_bits(other, check, out3)
+    conv.decode_bits(ref, check, out3)
+    ctx.count("decode_calls", 2)
+    ctx.count("decodes_into_used_dictionary")
+    if out3.pop("_unrelated", None) != 1234:
+        ctx.fail("C10:decode.unrelated_entry_lost", "decode_bits removed or changed an unrelated entry of the result dictionary", wit)
+    if plain(out3) != plain(out1):
+        stale = [k for k in out1 if plain(out3).get(k) != plain(out1)[k]]
+        ctx.fail("C10:decode.into_used_dictionary", "decoding into a dictionary that already held %r does not give the buffer's values" % stale[:3], wit)
 
 
 def shape(f):
